@@ -89,6 +89,15 @@ Theorem new_language_idempotent : forall s : list Z,
 Proof. intro s. split; [apply new_language_idempotent_lemma|apply new_language_canonical_lemma]. Qed.
 Print Assumptions new_language_idempotent.
 
+(* the canonical form, for EVERY byte string (any list of integers, NUL and bytes above 0x7F included): every byte of
+   NewLanguage(s) is one of a-z, 0-9, '-' - nothing else survives, in particular no NUL byte, whose canonMap entry 0
+   is the "strip" marker - and a string made of such bytes only is returned unchanged *)
+Theorem new_language_canonical :
+  (forall (s : list Z) (b : Z), In b (new_language s) -> 97 <= b <= 122 \/ 48 <= b <= 57 \/ b = 45)
+  /\ (forall l : list Z, canonical l = true -> new_language l = l).
+Proof. split; [exact new_language_bytes_lemma|exact new_language_fixes_canonical_lemma]. Qed.
+Print Assumptions new_language_canonical.
+
 (* every identifier of the language table round-trips through its tag (finite domain: the table) *)
 Theorem langid_roundtrip : forall id, 0 <= id < zlen languagesInfos -> new_lang_id (lang_of_id id) = Ok (id, true).
 Proof. exact langid_roundtrip_lemma. Qed.
@@ -295,6 +304,12 @@ Example language_example :
   /\ new_lang_id [109; 108; 45; 105; 110] = Ok (288, true) /\ 0 <= 288 < zlen languagesInfos
   /\ new_lang_id [102; 114; 45; 98; 101] = Ok (71, true) /\ lang_of_id 71 = [102; 114].
 Proof. repeat split; try (vm_compute; reflexivity); vm_compute; congruence. Qed.
+Example language_canonical_example :   (* "EN\000_us@1" with a NUL byte and "fr\000": the NUL is stripped *)
+  new_language [69; 78; 0; 95; 117; 115; 64; 49] = [101; 110; 45; 117; 115; 45; 49]
+  /\ new_language [102; 114; 0] = [102; 114] /\ new_language [0] = []
+  /\ canonical [102; 114; 45; 98; 101] = true /\ new_language [102; 114; 45; 98; 101] = [102; 114; 45; 98; 101]
+  /\ canonical [102; 114; 0] = false.
+Proof. repeat split; vm_compute; reflexivity. Qed.
 Example direction_example :
   dir_set_sideways 1 true = 15 /\ dir_is_sideways 15 = true /\ dir_progression 15 = true /\ dir_set_progression 15 false = 14.
 Proof. repeat split. Qed.
